@@ -34,8 +34,12 @@ fn hx(s: &str) -> u64 {
 }
 
 async fn send_token<S: Storage>(group: &KeyspaceGroup<S>, tok: &str) -> String {
+    send_token_to(group, KS, tok).await
+}
+
+async fn send_token_to<S: Storage>(group: &KeyspaceGroup<S>, name: &str, tok: &str) -> String {
     let p: Vec<&str> = tok.split(':').collect();
-    let ks = group.get_or_create_keyspace(KS).await;
+    let ks = group.get_or_create_keyspace(name).await;
     let ok = |r: bool| if r { "ok".to_string() } else { "err".to_string() };
     match p.as_slice() {
         ["s", src, k, t, pl, _] => {
@@ -72,12 +76,16 @@ async fn send_token<S: Storage>(group: &KeyspaceGroup<S>, tok: &str) -> String {
 /// Metadata and live documents of the keyspace, read once (retried on a read error), and their
 /// dump in the format of `hx_ec::show_store`.
 async fn read_store<S: Storage>(st: &S) -> Result<(Vec<(u64, u64, bool)>, String), String> {
+    read_store_of(st, KS).await
+}
+
+async fn read_store_of<S: Storage>(st: &S, name: &str) -> Result<(Vec<(u64, u64, bool)>, String), String> {
     let mut last = String::new();
     for attempt in 0..5 {
         if attempt > 0 {
             tokio::time::sleep(Duration::from_millis(5)).await;
         }
-        let mut meta: Vec<(u64, u64, bool)> = match st.iter_metadata(KS).await {
+        let mut meta: Vec<(u64, u64, bool)> = match st.iter_metadata(name).await {
             Ok(it) => it.map(|(k, t, d)| (k, t.as_u64(), d)).collect(),
             Err(e) => {
                 last = format!("iter_metadata: {e:?}");
@@ -88,7 +96,7 @@ async fn read_store<S: Storage>(st: &S) -> Result<(Vec<(u64, u64, bool)>, String
         let mut docs = Vec::new();
         let mut failed = false;
         for (k, _, dead) in &meta {
-            match st.get(KS, *k).await {
+            match st.get(name, *k).await {
                 Ok(Some(d)) => docs.push(format!("{:x}={:x}.{:x}", k, d.last_updated().as_u64(), payload_of(&d))),
                 Ok(None) => {
                     if !*dead {
@@ -318,6 +326,158 @@ fn run_case<S: Backend>(w: &mut CaseWriter, root: &Path, n: u64, probes: &[u64],
     let _ = std::fs::remove_dir_all(&dir);
 }
 
+/// The names of the multi-keyspace cases (`mks`): index 0 is the keyspace of the `act` cases.
+const NAMES: [&str; 3] = [KS, "k2", "zz-late"];
+
+/// One observation of one keyspace, modulo purgeable tombstones (see `run_case`): the dump, and
+/// what the oracle has to say about it.
+async fn observe<S: Backend>(
+    group: &KeyspaceGroup<S>,
+    store: &S,
+    name: &str,
+    probes: &[u64],
+    fails: &mut Vec<(String, String)>,
+    at: &str,
+    restarted: bool,
+) -> (String, Set2) {
+    let set = actor_set(group, name).await;
+    let (meta, st) = match read_store_of(store, name).await {
+        Ok(x) => x,
+        Err(e) => {
+            fails.push(("storage-read-fails".into(), format!("{at}: {e}")));
+            (Vec::new(), "M?G?".to_string())
+        },
+    };
+    let keep = |t: u64| set.will_apply(PROBE_KEY, datacake_crdt::HLCTimestamp::from_u64(t));
+    let meta: Vec<(u64, u64, bool)> = meta.into_iter().filter(|(_, t, dead)| !*dead || keep(*t)).collect();
+    let st = if st == "M?G?" {
+        st
+    } else {
+        let m: Vec<String> = meta.iter().map(|(k, t, d)| format!("{:x}={:x}.{}", k, t, *d as u8)).collect();
+        format!("M[{}]{}", m.join(","), &st[st.find("]G[").map(|i| i + 1).unwrap_or(st.len())..])
+    };
+    let mut set = set;
+    let _ = set.purge_old_deletes();
+    if let Some(detail) = agree(&set, &meta) {
+        let class = if restarted { "rebuilt-set-differs-from-storage" } else { "set-and-storage-disagree" };
+        fails.push((class.to_string(), format!("{at}, keyspace {name}: {detail}")));
+    }
+    if st.contains("=missing") {
+        fails.push(("live-metadata-without-document".to_string(), format!("{at}, keyspace {name}: {st}")));
+    }
+    (format!("{} {}", show_set(&set, probes), st), set)
+}
+
+/// `mks`: the same token language, every request addressed to one of three keyspaces
+/// (`<i>/<token>`); after a request the addressed keyspace is observed, after a restart ALL
+/// three are (`restart <ks0> ; restart <ks1> ; restart <ks2>`): the node has to rebuild every
+/// keyspace storage lists, each from its own rows, and an unused name stays empty.
+fn run_mks<S: Backend>(w: &mut CaseWriter, root: &Path, n: u64, probes: &[u64], toks: &[String]) {
+    let pv: Vec<String> = probes.iter().map(|t| format!("{:x}", t)).collect();
+    let case = format!("{} mks probes={} {}", S::NAME, pv.join(","), toks.join(" "));
+    let dir: PathBuf = root.join(format!("{}-m{}", S::NAME, n));
+    let _ = std::fs::remove_dir_all(&dir);
+    std::fs::create_dir_all(&dir).unwrap();
+    let mut out: Vec<String> = Vec::new();
+    let mut fails: Vec<(String, String)> = Vec::new();
+    let mut before: Vec<Set2> = Vec::new();
+    let mut i = 0usize;
+    let mut first = true;
+    'life: loop {
+        let rt = new_rt();
+        let store = match rt.block_on(S::open_at(&dir)) {
+            Ok(s) => Arc::new(s),
+            Err(e) => {
+                out.push("?open-failed".into());
+                w.case(&case, &out.join(" | "));
+                w.fail(if first { "backend-does-not-open" } else { "backend-does-not-reopen" }, &case, &e);
+                return;
+            },
+        };
+        let stop = rt.block_on(async {
+            let group = match new_group(&store).await {
+                Ok(g) => g,
+                Err(e) => {
+                    out.push("?load-failed".into());
+                    fails.push(("load-states-fails".into(), e));
+                    return true;
+                },
+            };
+            if !first {
+                w.stats.hit("restarts_with_several_keyspaces");
+                let mut parts = Vec::new();
+                for (j, name) in NAMES.iter().enumerate() {
+                    let at = format!("after restart before token {}", i);
+                    let (dump, set) = observe(&group, &*store, name, probes, &mut fails, &at, true).await;
+                    if let Some(b) = before.get(j) {
+                        if set_contents(b) != set_contents(&set) {
+                            fails.push((
+                                "acknowledged-mutation-lost-by-restart".to_string(),
+                                format!("{at}, keyspace {name}: before {:x?}, after {:x?}", set_contents(b), set_contents(&set)),
+                            ));
+                        }
+                    }
+                    parts.push(format!("restart {}", dump));
+                }
+                out.push(parts.join(" ; "));
+            }
+            loop {
+                if i >= toks.len() {
+                    return true;
+                }
+                let tok = &toks[i];
+                if tok == "R" {
+                    before.clear();
+                    for name in NAMES {
+                        let mut b = actor_set(&group, name).await;
+                        let _ = b.purge_old_deletes();
+                        before.push(b);
+                    }
+                    i += 1;
+                    return false;
+                }
+                let (j, inner) = match tok.split_once('/') {
+                    Some((j, inner)) => (j.parse::<usize>().unwrap_or(0) % NAMES.len(), inner),
+                    None => (0, tok.as_str()),
+                };
+                let reply = send_token_to(&group, NAMES[j], inner).await;
+                if reply != "ok" {
+                    fails.push(("request-fails-on-a-healthy-backend".into(), format!("token {} ({})", i, tok)));
+                }
+                i += 1;
+                let at = format!("after token {}", i);
+                let (dump, _) = observe(&group, &*store, NAMES[j], probes, &mut fails, &at, false).await;
+                out.push(format!("{} {}", reply, dump));
+            }
+        });
+        first = false;
+        drop(rt);
+        match wait_unique(store) {
+            Some(s) => {
+                if !s.close(&dir) {
+                    w.stats.hit("close_not_observed");
+                }
+            },
+            None => {
+                out.push("?store-still-in-use".into());
+                fails.push(("stopped-node-keeps-the-store".into(), "the storage handle is still shared 5 s after the node's runtime was dropped".into()));
+                break 'life;
+            },
+        }
+        if stop {
+            break;
+        }
+    }
+    w.case(&case, &out.join(" | "));
+    let mut seen = std::collections::BTreeSet::new();
+    for (class, detail) in fails {
+        if seen.insert(class.clone()) {
+            w.fail(&class, &case, &detail);
+        }
+    }
+    let _ = std::fs::remove_dir_all(&dir);
+}
+
 /// A history over a few ids: puts, deletes of live / absent / already deleted ids, bulk
 /// requests, stale operations, restarts anywhere.
 fn random_history(rng: &mut Rng, base: u64, len: u64) -> Vec<String> {
@@ -382,14 +542,16 @@ fn main() {
         if let Some(path) = &args.replay {
             for line in std::fs::read_to_string(path).unwrap().lines() {
                 let t: Vec<&str> = line.split_whitespace().collect();
-                if t.len() < 3 || t[1] != "act" {
+                if t.len() < 3 || (t[1] != "act" && t[1] != "mks") {
                     continue;
                 }
                 let probes: Vec<u64> = t[2].trim_start_matches("probes=").split(',').filter(|s| !s.is_empty()).map(hx).collect();
                 let toks: Vec<String> = t[3..].iter().map(|s| s.to_string()).collect();
-                match t[0] {
-                    "sqlf" => run_case::<SqliteStorage>(&mut w, &root, n, &probes, &toks),
-                    _ => run_case::<LmdbStorage>(&mut w, &root, n, &probes, &toks),
+                match (t[0], t[1]) {
+                    ("sqlf", "act") => run_case::<SqliteStorage>(&mut w, &root, n, &probes, &toks),
+                    (_, "act") => run_case::<LmdbStorage>(&mut w, &root, n, &probes, &toks),
+                    ("sqlf", _) => run_mks::<SqliteStorage>(&mut w, &root, n, &probes, &toks),
+                    _ => run_mks::<LmdbStorage>(&mut w, &root, n, &probes, &toks),
                 }
                 n += 1;
             }
@@ -466,6 +628,38 @@ fn main() {
                 let h = random_history(&mut rng, base + 100, len);
                 both(&mut w, &root, &mut n, &probes, &h);
             }
+        }
+    }
+    // several keyspaces on one store: fixed shapes (a keyspace holding only tombstones, a keyspace
+    // first used after a restart, the same id in two keyspaces), then random histories whose
+    // requests are spread over the three names
+    {
+        let mut rng = Rng::new(args.seed ^ 0x6b73);
+        let base = 96_000_000u64;
+        let probes = vec![mk(base, 0, 1), mk(base + W_TICKS, 0, 1), mk(base + 3 * W_TICKS, 0, 1)];
+        let t = |d: u64, c: u64, node: u64| mk(base + d, c, node);
+        let shapes: Vec<Vec<String>> = vec![
+            vec![format!("0/s:0:1:{:x}:71:k", t(10, 0, 1)), format!("1/s:0:1:{:x}:72:k", t(11, 0, 1)), "R".into(),
+                 format!("1/d:0:1:{:x}:k", t(12, 0, 2)), "R".into(), format!("2/s:1:5:{:x}:73:k", t(13, 0, 1)), "R".into()],
+            vec![format!("1/d:0:4:{:x}:k", t(10, 0, 1)), "R".into(), format!("0/s:0:4:{:x}:74:k", t(5, 0, 1)), "R".into()],
+            vec![format!("2/S:0:k:1.{a:x}.75,2.{a:x}.76", a = t(20, 0, 1)), format!("0/D:1:k:1.{b:x},2.{b:x}", b = t(21, 0, 2)),
+                 format!("1/S:1:k:2.{c:x}.77", c = t(22, 0, 3)), "R".into(), "R".into()],
+        ];
+        for s in &shapes {
+            run_mks::<SqliteStorage>(&mut w, &root, n, &probes, s);
+            run_mks::<LmdbStorage>(&mut w, &root, n, &probes, s);
+            n += 1;
+        }
+        let count = if args.thorough() { 2000 } else { 200 };
+        for _ in 0..count {
+            let len = 3 + rng.below(12);
+            let h: Vec<String> = random_history(&mut rng, base + 100, len)
+                .into_iter()
+                .map(|tok| if tok == "R" { tok } else { format!("{}/{}", rng.below(3), tok) })
+                .collect();
+            run_mks::<SqliteStorage>(&mut w, &root, n, &probes, &h);
+            run_mks::<LmdbStorage>(&mut w, &root, n, &probes, &h);
+            n += 1;
         }
     }
     let _ = std::fs::remove_dir_all(&root);
